@@ -437,3 +437,46 @@ class Earley:
                         if d2 < len(r2) and r2[d2] == lhs:
                             add(k, (q, d2 + 1, o2))
         return any(self.lhs[p] == self.start and dot == len(self.rhs[p]) and org == 0 for (p, dot, org) in S[n])
+
+
+def _earley_viable_len(self, kinds):
+    """length of the longest prefix of `kinds` that is a viable prefix of the grammar (can be completed to a sentence)"""
+    n = len(kinds)
+    S = [dict() for _ in range(n + 1)]
+    order = [[] for _ in range(n + 1)]
+
+    def add(k, it):
+        if it not in S[k]:
+            S[k][it] = True
+            order[k].append(it)
+    for p in self.by_lhs[self.start]:
+        add(0, (p, 0, 0))
+    last = 0
+    for k in range(n + 1):
+        i = 0
+        while i < len(order[k]):
+            p, dot, org = order[k][i]
+            i += 1
+            rhs = self.rhs[p]
+            if dot < len(rhs):
+                sym = rhs[dot]
+                if sym in self.by_lhs:
+                    for q in self.by_lhs[sym]:
+                        add(k, (q, 0, k))
+                    if sym in self.nullable:
+                        add(k, (p, dot + 1, org))
+                elif k < n and kinds[k] == sym:
+                    add(k + 1, (p, dot + 1, org))
+            else:
+                lhs = self.lhs[p]
+                for (q, d2, o2) in list(order[org]):
+                    r2 = self.rhs[q]
+                    if d2 < len(r2) and r2[d2] == lhs:
+                        add(k, (q, d2 + 1, o2))
+        if not order[k]:
+            return k - 1
+        last = k
+    return last
+
+
+Earley.viable_len = _earley_viable_len
